@@ -382,4 +382,239 @@ Section SpProofs.
   Proof. reflexivity. Qed.
   Lemma sp_submat_cols_eq a j0 j1 : sp_submat_cols o a j0 j1 = sp_submat o a 0 (sp_m a) j0 j1.
   Proof. reflexivity. Qed.
+
+  Local Notation gsum := (gsum o).
+
+  (* ---------- four-way split ---------- *)
+  Lemma assemble_ok m n l :
+    (forall e, In e l -> (e_row e < m)%nat /\ (e_col e < n)%nat) ->
+    exists b, assemble o m n l = Some b /\ sp_m b = m /\ sp_n b = n /\ sp_wf b /\
+              (forall P, psum P (sp_st b) = psum P l).
+  Proof.
+    intros B. pose proof (assemble_spec m n l) as S. destruct (assemble o m n l) as [b|].
+    - exists b. split; [reflexivity|]. now destruct S as (_ & S).
+    - apply in_bounds_false in S. destruct S as [e [He Hn]]. exfalso. apply Hn. now apply B.
+  Qed.
+
+  Theorem sp_divide4_spec a k l : sp_wf a ->
+    match sp_divide4 o a k l with
+    | Some (A, B, C, D) =>
+        (k <= sp_m a)%nat /\ (l <= sp_n a)%nat /\
+        sp_is A k l (entry o a) /\
+        sp_is B k (sp_n a - l) (fun i j => entry o a i (l + j)) /\
+        sp_is C (sp_m a - k) l (fun i j => entry o a (k + i) j) /\
+        sp_is D (sp_m a - k) (sp_n a - l) (fun i j => entry o a (k + i) (l + j))
+    | None => ~ ((k <= sp_m a)%nat /\ (l <= sp_n a)%nat)
+    end.
+  Proof.
+    intros W. pose proof W as W'. apply sp_wf_iff in W'. destruct W' as [Bd _].
+    pose proof (proj1 (in_bounds_iff _ _ _) Bd) as Bnd.
+    unfold sp_divide4. cbv zeta.
+    destruct (Nat.leb_spec k (sp_m a)) as [E1|E1]; destruct (Nat.leb_spec l (sp_n a)) as [E2|E2]; cbn [andb];
+      try lia.
+    match goal with |- context [assemble o k l ?x] =>
+      destruct (assemble_ok k l x) as [A (EA & A1 & A2 & A3 & A4)] end.
+    { intros e He. apply filter_In in He. destruct He as [He F]. apply nz_in in He. destruct He as [He _].
+      destruct (Nat.ltb_spec (e_row e) k); destruct (Nat.ltb_spec (e_col e) l); cbn in F; try discriminate. lia. }
+    match goal with |- context [assemble o k (sp_n a - l) ?x] =>
+      destruct (assemble_ok k (sp_n a - l) x) as [B (EB & B1 & B2 & B3 & B4)] end.
+    { intros e' He'. apply in_map_iff in He'. destruct He' as [e [<- He]].
+      apply filter_In in He. destruct He as [He F]. apply nz_in in He. destruct He as [He _].
+      destruct (Bnd e He). cbn [e_row e_col fst snd].
+      destruct (Nat.ltb_spec (e_row e) k); destruct (Nat.ltb_spec (e_col e) l); cbn in F; try discriminate. lia. }
+    match goal with |- context [assemble o (sp_m a - k) l ?x] =>
+      destruct (assemble_ok (sp_m a - k) l x) as [C (EC & C1 & C2 & C3 & C4)] end.
+    { intros e' He'. apply in_map_iff in He'. destruct He' as [e [<- He]].
+      apply filter_In in He. destruct He as [He F]. apply nz_in in He. destruct He as [He _].
+      destruct (Bnd e He). cbn [e_row e_col fst snd].
+      destruct (Nat.ltb_spec (e_row e) k); destruct (Nat.ltb_spec (e_col e) l); cbn in F; try discriminate. lia. }
+    match goal with |- context [assemble o (sp_m a - k) (sp_n a - l) ?x] =>
+      destruct (assemble_ok (sp_m a - k) (sp_n a - l) x) as [D (ED & D1 & D2 & D3 & D4)] end.
+    { intros e' He'. apply in_map_iff in He'. destruct He' as [e [<- He]].
+      apply filter_In in He. destruct He as [He F]. apply nz_in in He. destruct He as [He _].
+      destruct (Bnd e He). cbn [e_row e_col fst snd].
+      destruct (Nat.ltb_spec (e_row e) k); destruct (Nat.ltb_spec (e_col e) l); cbn in F; try discriminate. lia. }
+    rewrite EA, EB, EC, ED. cbn [obind]. unfold sp_is. splits; try assumption.
+    - intros i j Hi Hj. rewrite !entry_psum, A4, !(psum_gsum o), (gsum_filter o), (gsum_nz o L).
+      apply gsum_ext. intros e _. unfold key_eq.
+      destruct (Nat.ltb_spec (e_row e) k); destruct (Nat.ltb_spec (e_col e) l); cbn; eqb_cases.
+    - intros i j Hi Hj. rewrite !entry_psum, B4, (gsum_map_key o), (psum_gsum o), (gsum_filter o), (gsum_nz o L).
+      apply gsum_ext. intros e _. unfold key_eq.
+      destruct (Nat.ltb_spec (e_row e) k); destruct (Nat.ltb_spec (e_col e) l); cbn; eqb_cases.
+    - intros i j Hi Hj. rewrite !entry_psum, C4, (gsum_map_key o), (psum_gsum o), (gsum_filter o), (gsum_nz o L).
+      apply gsum_ext. intros e _. unfold key_eq.
+      destruct (Nat.ltb_spec (e_row e) k); destruct (Nat.ltb_spec (e_col e) l); cbn; eqb_cases.
+    - intros i j Hi Hj. rewrite !entry_psum, D4, (gsum_map_key o), (psum_gsum o), (gsum_filter o), (gsum_nz o L).
+      apply gsum_ext. intros e _. unfold key_eq.
+      destruct (Nat.ltb_spec (e_row e) k); destruct (Nat.ltb_spec (e_col e) l); cbn; eqb_cases.
+  Qed.
+
+  (* ---------- recombination ---------- *)
+  Lemma psum_shift P di dj (l : list ent) :
+    psum P (shift di dj l) = psum (fun i j => P (i + di)%nat (j + dj)%nat) l.
+  Proof. unfold shift. now rewrite (gsum_map_key o), (psum_gsum o). Qed.
+
+  Lemma esum_shift di dj (l : list ent) i j :
+    psum (fun i' j' => key_eq i' j' i j) (shift di dj l)
+    = if (di <=? i) && (dj <=? j) then psum (fun i' j' => key_eq i' j' (i - di) (j - dj)) l else 0.
+  Proof.
+    rewrite psum_shift.
+    destruct (Nat.leb_spec di i); destruct (Nat.leb_spec dj j); cbn [andb].
+    - apply psum_ext. intros e _. unfold key_eq. eqb_cases.
+    - apply psum_false. intros e _. unfold key_eq. eqb_cases.
+    - apply psum_false. intros e _. unfold key_eq. eqb_cases.
+    - apply psum_false. intros e _. unfold key_eq. eqb_cases.
+  Qed.
+
+  Lemma shift_bounds di dj m n (l : list ent) e :
+    in_bounds m n l = true -> In e (shift di dj l) -> (e_row e < m + di)%nat /\ (e_col e < n + dj)%nat.
+  Proof.
+    intros B He. unfold shift in He. apply in_map_iff in He. destruct He as [x [<- Hx]].
+    destruct (proj1 (in_bounds_iff m n l) B x Hx). cbn [e_row e_col fst snd]. lia.
+  Qed.
+
+  (* the block matrix [[a, b], [c, d]] *)
+  Definition blocks (k l : nat) (fa fb fc fd : nat -> nat -> R) : nat -> nat -> R := fun i j =>
+    if i <? k then (if j <? l then fa i j else fb i (j - l)%nat)
+    else (if j <? l then fc (i - k)%nat j else fd (i - k)%nat (j - l)%nat).
+
+  Theorem sp_combine_blocks_spec a b c d : sp_wf a -> sp_wf b -> sp_wf c -> sp_wf d ->
+    match sp_combine_blocks o a b c d with
+    | Some r => (sp_m a = sp_m b /\ sp_m c = sp_m d /\ sp_n a = sp_n c /\ sp_n b = sp_n d) /\
+                sp_is r (sp_m a + sp_m c) (sp_n a + sp_n b)
+                  (blocks (sp_m a) (sp_n a) (entry o a) (entry o b) (entry o c) (entry o d))
+    | None => ~ (sp_m a = sp_m b /\ sp_m c = sp_m d /\ sp_n a = sp_n c /\ sp_n b = sp_n d)
+    end.
+  Proof.
+    intros Wa Wb Wc Wd.
+    pose proof (proj1 (proj1 (sp_wf_iff a) Wa)) as Ba. pose proof (proj1 (proj1 (sp_wf_iff b) Wb)) as Bb.
+    pose proof (proj1 (proj1 (sp_wf_iff c) Wc)) as Bc. pose proof (proj1 (proj1 (sp_wf_iff d) Wd)) as Bd.
+    unfold sp_combine_blocks.
+    destruct (Nat.eqb_spec (sp_m a) (sp_m b)) as [E1|E1]; destruct (Nat.eqb_spec (sp_m c) (sp_m d)) as [E2|E2];
+      destruct (Nat.eqb_spec (sp_n a) (sp_n c)) as [E3|E3]; destruct (Nat.eqb_spec (sp_n b) (sp_n d)) as [E4|E4];
+      cbn [andb]; try tauto.
+    cbv zeta.
+    match goal with |- context [sp_from_entries o ?m ?n ?es] =>
+      destruct (sp_from_entries_ok m n es) as [r (Er & (R1 & R2 & R3 & _) & R5)] end.
+    { intros e He. rewrite !in_app_iff in He. destruct He as [He|[He|[He|He]]].
+      - pose proof (shift_bounds _ _ _ _ _ e Ba He). lia.
+      - pose proof (shift_bounds _ _ _ _ _ e Bb He). lia.
+      - pose proof (shift_bounds _ _ _ _ _ e Bc He). lia.
+      - pose proof (shift_bounds _ _ _ _ _ e Bd He). lia. }
+    rewrite Er. split; [tauto|]. unfold sp_is. splits; try assumption.
+    intros i j Hi Hj. rewrite entry_psum, R5, !(psum_app o L), !esum_shift, <- !entry_psum.
+    rewrite !Nat.sub_0_r. unfold blocks. cbn [Nat.leb andb].
+    destruct (Nat.ltb_spec i (sp_m a)) as [Hik|Hik]; destruct (Nat.ltb_spec j (sp_n a)) as [Hjl|Hjl].
+    - destruct (Nat.leb_spec (sp_m a) i); destruct (Nat.leb_spec (sp_n a) j); try lia. cbn [andb]. ring.
+    - destruct (Nat.leb_spec (sp_m a) i); destruct (Nat.leb_spec (sp_n a) j); try lia. cbn [andb].
+      rewrite (entry_outside o a i j Wa) by lia. ring.
+    - destruct (Nat.leb_spec (sp_m a) i); destruct (Nat.leb_spec (sp_n a) j); try lia. cbn [andb].
+      rewrite (entry_outside o a i j Wa) by lia. ring.
+    - destruct (Nat.leb_spec (sp_m a) i); destruct (Nat.leb_spec (sp_n a) j); try lia. cbn [andb].
+      rewrite (entry_outside o a i j Wa) by lia.
+      rewrite (entry_outside o b i (j - sp_n a) Wb) by lia.
+      rewrite (entry_outside o c (i - sp_m a) j Wc) by lia. ring.
+  Qed.
+
+  (* split and recombine: the same shape and the same entries *)
+  Theorem sp_divide4_combine a k l A B C D : sp_wf a ->
+    sp_divide4 o a k l = Some (A, B, C, D) ->
+    exists r, sp_combine_blocks o A B C D = Some r /\ sp_is r (sp_m a) (sp_n a) (entry o a).
+  Proof.
+    intros W E. pose proof (sp_divide4_spec a k l W) as S. rewrite E in S.
+    destruct S as (Hk & Hl & (A1 & A2 & A3 & A4) & (B1 & B2 & B3 & B4) & (C1 & C2 & C3 & C4) & (D1 & D2 & D3 & D4)).
+    pose proof (sp_combine_blocks_spec A B C D A3 B3 C3 D3) as T.
+    destruct (sp_combine_blocks o A B C D) as [r|].
+    - exists r. split; [reflexivity|]. destruct T as (_ & (R1 & R2 & R3 & R4)).
+      unfold sp_is. splits; try assumption; try lia.
+      intros i j Hi Hj. rewrite R4 by lia. unfold blocks. rewrite A1, A2.
+      destruct (Nat.ltb_spec i k); destruct (Nat.ltb_spec j l).
+      + apply A4; lia.
+      + rewrite B4 by lia. f_equal. lia.
+      + rewrite C4 by lia. f_equal. lia.
+      + rewrite D4 by lia. f_equal; lia.
+    - exfalso. apply T. lia.
+  Qed.
+
+  (* ---------- concat, stack ---------- *)
+  Theorem sp_concat_spec a b : sp_wf a -> sp_wf b ->
+    match sp_concat o a b with
+    | Some r => sp_m a = sp_m b /\
+                sp_is r (sp_m a) (sp_n a + sp_n b)
+                  (fun i j => if j <? sp_n a then entry o a i j else entry o b i (j - sp_n a))
+    | None => sp_m a <> sp_m b
+    end.
+  Proof.
+    intros Wa Wb. unfold sp_concat.
+    pose proof (sp_combine_blocks_spec a b (sp_zero 0 (sp_n a)) (sp_zero 0 (sp_n b)) Wa Wb eq_refl eq_refl) as S.
+    destruct (sp_combine_blocks o a b (sp_zero 0 (sp_n a)) (sp_zero 0 (sp_n b))) as [r|].
+    - destruct S as ((E1 & _) & (R1 & R2 & R3 & R4)). cbn [sp_zero sp_m sp_n] in *.
+      split; [exact E1|]. unfold sp_is. splits; try assumption; try lia.
+      intros i j Hi Hj. rewrite R4 by lia. unfold blocks.
+      destruct (Nat.ltb_spec i (sp_m a)); [reflexivity|lia].
+    - cbn [sp_zero sp_m sp_n] in S. intros E. apply S. tauto.
+  Qed.
+
+  Theorem sp_stack_spec a b : sp_wf a -> sp_wf b ->
+    match sp_stack o a b with
+    | Some r => sp_n a = sp_n b /\
+                sp_is r (sp_m a + sp_m b) (sp_n a)
+                  (fun i j => if i <? sp_m a then entry o a i j else entry o b (i - sp_m a) j)
+    | None => sp_n a <> sp_n b
+    end.
+  Proof.
+    intros Wa Wb. unfold sp_stack.
+    pose proof (sp_combine_blocks_spec a (sp_zero (sp_m a) 0) b (sp_zero (sp_m b) 0) Wa eq_refl Wb eq_refl) as S.
+    destruct (sp_combine_blocks o a (sp_zero (sp_m a) 0) b (sp_zero (sp_m b) 0)) as [r|].
+    - destruct S as ((_ & _ & E3 & _) & (R1 & R2 & R3 & R4)). cbn [sp_zero sp_m sp_n] in *.
+      split; [exact E3|]. unfold sp_is. splits; try assumption; try lia.
+      intros i j Hi Hj. rewrite R4 by lia. unfold blocks.
+      destruct (Nat.ltb_spec j (sp_n a)); [reflexivity|lia].
+    - cbn [sp_zero sp_m sp_n] in S. intros E. apply S. tauto.
+  Qed.
+
+  (* ---------- extend_cols: the same matrix as concat, but the stored patterns are kept ---------- *)
+  Lemma shift_sorted di dj (l : list ent) : StronglySorted klt l -> StronglySorted klt (shift di dj l).
+  Proof.
+    intros S. unfold shift. apply sorted_map_mono; [|exact S].
+    intros x y. unfold C13SpBase.klt. cbn [e_row e_col fst snd]. rewrite !key_lt_spec. lia.
+  Qed.
+
+  Theorem sp_extend_cols_spec a b : sp_wf a -> sp_wf b ->
+    match sp_extend_cols a b with
+    | Some r => sp_m a = sp_m b /\
+                sp_is r (sp_m a) (sp_n a + sp_n b)
+                  (fun i j => if j <? sp_n a then entry o a i j else entry o b i (j - sp_n a)) /\
+                sp_nnz r = (sp_nnz a + sp_nnz b)%nat
+    | None => sp_m a <> sp_m b
+    end.
+  Proof.
+    intros Wa Wb. pose proof (proj1 (sp_wf_iff a) Wa) as [Ba Sa]. pose proof (proj1 (sp_wf_iff b) Wb) as [Bb Sb].
+    unfold sp_extend_cols. destruct (Nat.eqb_spec (sp_m a) (sp_m b)) as [E|E]; [|exact E].
+    destruct (Nat.eqb_spec (sp_n b) 0) as [Z|Z].
+    - split; [exact E|]. split.
+      + unfold sp_is. splits; try assumption; try lia. intros i j Hi Hj.
+        destruct (Nat.ltb_spec j (sp_n a)); [reflexivity|lia].
+      + unfold sp_nnz. destruct (sp_st b) as [|e r] eqn:Eb; [cbn; lia|].
+        exfalso. destruct (proj1 (in_bounds_iff _ _ _) Bb e) as [_ H]; [now left|lia].
+    - unfold try_csc.
+      assert (V : csc_validb (sp_m a) (sp_n a + sp_n b) (sp_st a ++ shift 0 (sp_n a) (sp_st b)) = true).
+      { unfold csc_validb. apply andb_true_iff. split.
+        - rewrite in_bounds_app. apply andb_true_iff. split.
+          + apply in_bounds_iff. intros e He. destruct (proj1 (in_bounds_iff _ _ _) Ba e He). lia.
+          + apply in_bounds_iff. intros e He. pose proof (shift_bounds _ _ _ _ _ e Bb He). lia.
+        - apply sortedb_iff. apply sorted_app; [exact Sa|now apply shift_sorted|].
+          intros x y Hx Hy. unfold shift in Hy. apply in_map_iff in Hy. destruct Hy as [z [<- Hz]].
+          destruct (proj1 (in_bounds_iff _ _ _) Ba x Hx). unfold C13SpBase.klt. cbn [e_row e_col fst snd].
+          apply key_lt_spec. lia. }
+      rewrite V. split; [exact E|]. split.
+      + unfold sp_is. cbn [sp_m sp_n]. splits; try reflexivity.
+        * exact V.
+        * intros i j Hi Hj. rewrite entry_psum. cbn [sp_st]. rewrite (psum_app o L), esum_shift, <- !entry_psum.
+          cbn [Nat.leb andb]. rewrite Nat.sub_0_r.
+          destruct (Nat.ltb_spec j (sp_n a)); destruct (Nat.leb_spec (sp_n a) j); try lia.
+          -- ring.
+          -- rewrite (entry_outside o a i j Wa) by lia. ring.
+      + unfold sp_nnz. cbn [sp_st]. unfold shift. now rewrite app_length, map_length.
+  Qed.
 End SpProofs.
